@@ -13,6 +13,7 @@ import (
 	"regexp"
 	"strconv"
 	"strings"
+	"time"
 
 	tpb "github.com/fullstorydev/grpchan/grpchantesting"
 	"github.com/fullstorydev/grpchan/httpgrpc"
@@ -128,6 +129,10 @@ func checkC14(e *core.Env) {
 					}
 					if reqCancelled {
 						cancel()
+						if caseNo%2 == 0 {
+							// the request context may also have ended by a deadline of its own (http.TimeoutHandler and the like)
+							ctx, cancel = context.WithDeadline(context.Background(), time.Unix(1, 0))
+						}
 					}
 					rec := httptest.NewRecorder()
 					srv.ServeHTTP(rec, unaryHTTPRequest(ctx, "/", run, hdr))
